@@ -10,8 +10,8 @@
 #include "vp.hpp"
 #include "rfc_framing.hpp"
 #include "common.hpp"
-#include "siggen.hpp"
 #include "codec_util.hpp"
+#include "siggen.hpp"
 #include "c11_model.hpp"
 
 using namespace vp;
